@@ -40,10 +40,13 @@ func ZEq(a, b Z) bool          { return false }
 func ZIte(c bool, a, b Z) Z    { return Z{} }
 
 // crypto objects (constructive: DESIGN.md section 4.2)
-func Priv(label string) *secp256k1.PrivateKey                                         { return nil }
-func SamePriv(a, b *secp256k1.PrivateKey) bool                                        { return false }
-func SamePub(a, b *secp256k1.PublicKey) bool                                          { return false }
-func BytesEq(a, b []byte) bool                                                        { return false }
+func Priv(label string) *secp256k1.PrivateKey  { return nil }
+func SamePriv(a, b *secp256k1.PrivateKey) bool { return false }
+func SamePub(a, b *secp256k1.PublicKey) bool   { return false }
+func BytesEq(a, b []byte) bool                 { return false }
+
+// NegPub returns the negated point (the compressed encoding with its parity bit flipped)
+func NegPub(a *secp256k1.PublicKey) *secp256k1.PublicKey                              { return a }
 func SchnorrSign(p *secp256k1.PrivateKey, hash []byte, aux uint64) *schnorr.Signature { return nil }
 
 // database
